@@ -232,6 +232,12 @@ def run_sequential(case, sweep, prop=None, after_op=None, final=None):
             res.foreign = (f.clause, f.detail)
         except OutOfScope:
             res.out_of_scope = True
+        try:
+            a, b = ctx.sut.stores()
+            res.extra["final_bytes"] = hashlib.sha256(a).hexdigest()[:24] + "/" + hashlib.sha256(b).hexdigest()[:24]
+        except Exception:
+            res.extra["final_bytes"] = None
+        res.extra["answers_digest"] = ctx.h.copy().hexdigest()
         if ctx.disk is not None:
             ctx.note("log", ctx.disk.log_digest())
             res.stats["write_events"] += len(ctx.disk.log)
